@@ -42,6 +42,8 @@ type Env struct {
 
 	clock int64
 	mu    sync.Mutex // raw cross-check mode only: user functions run on library goroutines
+	// Shared survives the uses of a phased run (values a caller would keep).
+	Shared map[string]any
 	// Data is the scenario's own state for this run.
 	Data any
 }
